@@ -445,4 +445,193 @@ def monC07a : ObsMonitor Obs M7a where
       | _ => none
     | _ => some m
 
+/-! ## C06 in the form that is proved for every model trace (`C06o_obs`)
+
+The key-set specification as a knowledge automaton: per key `absent`, `present`, `unknown e` (absent,
+or removed with a delay in epoch `e` and not yet expired) or `any`. The `failed` oracle is not
+observable, so a key removed with a delay is `unknown`; while calls of two callers overlap nothing is
+known about any key (`any`) except which references are certainly unreleased. -/
+
+inductive OK where
+  | absent | present | unknown (e : Nat) | any
+deriving DecidableEq, Repr
+
+/-- the history shows whether the key is in the set -/
+def OK.obs : OK → Bool → Option OK
+  | .absent, b => if b then none else some .absent
+  | .present, b => if b then some .present else none
+  | .unknown e, b => some (if b then .unknown e else .absent)
+  | .any, b => some (if b then .any else .absent)
+
+/-- rule `dismiss` on a key that was reported to be in the set -/
+def OK.dis (delay : Bool) (epoch : Nat) : OK → OK
+  | .absent => .absent
+  | .present => if delay then .unknown epoch else .absent
+  | .unknown e => .unknown e
+  | .any => .any
+
+structure M6o where
+  delay : Bool := false
+  /-- whether a context is set, when known -/
+  hasCtx : Option Bool := some false
+  epoch : Nat := 0
+  st : Nat → OK := fun _ => .absent
+  /-- constructor calls per key so far, when known (= the data of the key while it is in the set) -/
+  cnt : Nat → Option Nat := fun _ => some 0
+  /-- keys mentioned so far (the keys the set checks range over) -/
+  known : List Nat := []
+  /-- references that are certainly unreleased, with their key -/
+  liveDef : List (Option Nat) := []
+  /-- key of every reference whose `AddKeyRef` has returned -/
+  refKey : List (Option Nat) := []
+  /-- calls in progress: id, operation, "its interval overlapped another call" -/
+  pending : List (Nat × Op × Bool) := []
+
+def updF {α : Type} (f : Nat → α) (k : Nat) (v : α) : Nat → α := fun k' => if k' = k then v else f k'
+
+def M6o.refsIn (m : M6o) (inSet : Nat → Bool) : Bool :=
+  m.liveDef.all fun x => match x with
+    | some k => inSet k
+    | none => true
+
+def cntOk (c : Option Nat) (d : Nat) : Bool :=
+  match c with
+  | some n => n == d
+  | none => true
+
+/-- another certainly unreleased reference to `k` than `r` -/
+def M6o.otherRef (m : M6o) (r k : Nat) : Bool :=
+  (List.range m.liveDef.length).any fun r' => r' != r && m.liveDef[r']? == some (some k)
+
+/-- `request` reported `existed = e` and `data = d` -/
+def M6o.request (m : M6o) (k d : Nat) (e : Bool) : Option M6o :=
+  match (m.st k).obs e with
+  | none => none
+  | some _ =>
+    let c := if e then m.cnt k else (m.cnt k).map (· + 1)
+    if cntOk c d then some { m with st := updF m.st k .present, cnt := updF m.cnt k (some d), known := k :: m.known }
+    else none
+
+/-- the rule of a call that overlapped no other call, applied when its results are known -/
+def M6o.ret (m : M6o) : Op → Res → Option M6o
+  | .setKey k _, .dataExisted d e => m.request k d e
+  | .removeKey k, .bool b | .rcRemoveKey k, .bool b =>
+    match (m.st k).obs b with
+    | none => none
+    | some x => some { m with st := updF m.st k (if b then x.dis m.delay m.epoch else .absent), known := k :: m.known }
+  | .syncKeys ks _, .sync ad rm =>
+    if ad.all (fun k => ks.contains k) && rm.all (fun k => !ks.contains k) &&
+       ks.all (fun k => ((m.st k).obs (!ad.contains k)).isSome) &&
+       rm.all (fun k => ((m.st k).obs true).isSome) &&
+       m.known.all (fun k => ks.contains k || rm.contains k || ((m.st k).obs false).isSome)
+    then some { m with
+      st := fun k => if ks.contains k then .present
+                     else if rm.contains k then (((m.st k).obs true).getD .any).dis m.delay m.epoch
+                     else .absent
+      cnt := fun k => if ad.contains k then (m.cnt k).map (· + 1) else m.cnt k
+      known := ks ++ rm ++ m.known }
+    else none
+  | .getKey k, .dataExisted d e =>
+    match (m.st k).obs e with
+    | none => none
+    | some x =>
+      if m.refsIn (fun k' => k' != k || e) && (if e then cntOk (m.cnt k) d else d == 0)
+      then some { m with st := updF m.st k x, cnt := if e then updF m.cnt k (some d) else m.cnt, known := k :: m.known }
+      else none
+  | .getKeys, .keys ks =>
+    if m.refsIn ks.contains && ks.all (fun k => ((m.st k).obs true).isSome) &&
+       m.known.all (fun k => ks.contains k || ((m.st k).obs false).isSome)
+    then some { m with st := fun k => if ks.contains k then ((m.st k).obs true).getD .any else .absent
+                       known := ks ++ m.known }
+    else none
+  | .getKeysWithData, .keysData kd =>
+    let ks := kd.map (·.1)
+    if m.refsIn ks.contains && ks.all (fun k => ((m.st k).obs true).isSome) &&
+       m.known.all (fun k => ks.contains k || ((m.st k).obs false).isSome) &&
+       kd.all (fun p => cntOk (m.cnt p.1) p.2)
+    then some { m with st := fun k => if ks.contains k then ((m.st k).obs true).getD .any else .absent
+                       cnt := fun k => match kd.find? (·.1 == k) with
+                         | some p => some p.2
+                         | none => m.cnt k
+                       known := ks ++ m.known }
+    else none
+  | .resetRoutine k, .existedReset e r =>
+    match (m.st k).obs e with
+    | none => none
+    | some x =>
+      if r == e then
+        some { m with st := updF m.st k (if e then .present else x)
+                      cnt := if e then updF m.cnt k ((m.cnt k).map (· + 1)) else m.cnt, known := k :: m.known }
+      else none
+  | .restartRoutine k, .existedReset e r =>
+    match (m.st k).obs e with
+    | none => none
+    | some x => if (match m.hasCtx with
+          | some c => r == (e && c)
+          | none => true) then some { m with st := updF m.st k x, known := k :: m.known } else none
+  | .resetAll, .counts n t =>
+    if n == t && ((dedup m.known).filter fun k => m.st k == .present).length ≤ t then
+      some { m with st := fun k => match m.st k with
+                      | .absent => .absent
+                      | .present => .present
+                      | _ => .any
+                    cnt := fun k => match m.st k with
+                      | .absent => m.cnt k
+                      | .present => (m.cnt k).map (· + 1)
+                      | _ => none }
+    else none
+  | .restartAll, .counts n t =>
+    if (match m.hasCtx with
+        | some c => n == (if c then t else 0)
+        | none => true) && ((dedup m.known).filter fun k => m.st k == .present).length ≤ t
+    then some m else none
+  | .setContext c _, .unit => some { m with hasCtx := some c.isSome }
+  | .addKeyRef k, .ref r d e =>
+    (m.request k d e).map fun m =>
+      { m with liveDef := setAt m.liveDef r (some k), refKey := setAt m.refKey r (some k) }
+  | .release r, .unit =>
+    match m.refKey[r]? with
+    | some (some k) =>
+      if m.otherRef r k then some m
+      else some { m with st := updF m.st k (match m.st k with
+                    | .absent => .absent
+                    | _ => .any) }
+    | _ =>
+      -- a reference the monitor does not know (taken while calls overlapped): any key may be affected
+      some { m with st := fun k => match m.st k with
+                      | .absent => .absent
+                      | _ => .any }
+  | _, _ => none
+
+def monC06o : ObsMonitor Obs M6o where
+  init := {}
+  step := fun m o =>
+    match o with
+    | .config c => some { m with delay := c.delay }
+    | .inv id op =>
+      -- a reference stops being certainly unreleased when its release is invoked
+      let ld := match op with
+        | .release r => if r < m.liveDef.length then m.liveDef.set r none else m.liveDef
+        | .rcRemoveKey k => m.liveDef.map fun x => if x == some k then none else x
+        | _ => m.liveDef
+      if m.pending.isEmpty then some { m with pending := [(id, op, false)], liveDef := ld }
+      else
+        -- two callers: nothing is known about the keys any more
+        some { m with pending := m.pending.map (fun p => (p.1, p.2.1, true)) ++ [(id, op, true)]
+                      st := fun _ => .any, cnt := fun _ => none, hasCtx := none, liveDef := [] }
+    | .ret id res =>
+      match m.pending.find? (·.1 == id) with
+      | some (_, op, overlapped) =>
+        let rest := m.pending.filter (·.1 != id)
+        if overlapped then some { m with pending := rest }
+        else (m.ret op res).map fun m => { m with pending := rest }
+      | none => none
+    | .advance => some { m with epoch := m.epoch + 1 }
+    | .quiesce =>
+      -- every callback of a removal timer that has fired has run
+      some { m with st := fun k => match m.st k with
+                      | .unknown e => if e < m.epoch then .absent else .unknown e
+                      | x => x }
+    | _ => some m
+
 end UtilModel.Keyed
